@@ -22,6 +22,8 @@ ASSUMPTIONS = {
     "A-REAL": "finite float arithmetic is treated as exact real arithmetic; zeros unsigned; no overflow/underflow (special values NaN/+-inf are exact)",
     "A-TF": "ground axioms of exp/log/cos/pow (positivity, monotonicity, exp-log inverse, cos bounds and values at 0,+-pi) hold of NumPy's functions; sqrt is definitional",
     "A-NP": "value/kind models of the NumPy primitives used on verified paths (where, isnan, minimum, maximum, clip, nan_to_num, full_like, abs, square, ...) - conformance-checked against the installed NumPy on every run",
+    "A-NP/interp": "assumed contract of numpy.interp: piecewise-linear interpolation of the table, end values outside it, NaN iff x is NaN (cross-checked by a bounded run-time stand-in)",
+    "A-SET": "numeric obligations that read library settings (atol, rtol) are stated for the library's default settings, read from the signature of library.Settings.__init__",
     "A-PY": "attribute lookup follows the MRO read from the source; no monkey-patching/metaclasses/__getattr__ on verified classes",
     "A-MSG": "building an exception message neither raises nor has effects (message text is not evaluated)",
     "A-LOG": "logging calls neither raise nor mutate library state (dropped by extraction)",
